@@ -56,6 +56,10 @@ def main():
         meta["tests_with_change"] = tests_out.strip().splitlines()[-1:] 
     finally:
         sh("git -C /repo checkout -- . && git -C /repo clean -fdq -- naunet tests")
+    # the checks wrote their evidence files with the patch applied: rewrite them on the unchanged tree
+    for p in [prop] + extra_checks:
+        rc0, _ = sh(f"./check {p} --tier quick", cwd=str(VERIF))
+        meta.setdefault("check_on_unchanged_tree", {})[p] = rc0
     rc_demo0, out_demo0 = sh(f"/venv/bin/python {d / 'demo.py'}", cwd="/repo", env=env)
     meta["demo_without_change"] = {"exit": rc_demo0, "tail": out_demo0[-200:]}
     meta["detected"] = meta["checks_with_change"][prop]["exit"] != 0
